@@ -21,10 +21,13 @@ StrA == <<65>>  StrB == <<66, 67>>  StrL == <<76>>  StrM == <<77>>
 Sizes == IF Focus = "c04" THEN (IF Quick THEN {0, 1, 4, 6, 9} ELSE {0, 1, 2, 3, 4, 5, 6, 8, 9, 12})
          ELSE IF Quick THEN {0, 4, 8} ELSE {0, 4, 8, 12}
 Endians == IF Focus = "c04" THEN {"le", "be"} ELSE {"le"}
-DataOf(n) == [i \in 1..n |-> ((37 * i + 11) % 250) + 1]
+\* c03: distinct non-zero bytes; c04: ASCII letters with a NUL every fourth byte (so that read_c_string finds strings)
+DataOf(n) == IF Focus = "c04" THEN [i \in 1..n |-> IF i % 4 = 0 THEN 0 ELSE 65 + (i % 26)]
+             ELSE [i \in 1..n |-> ((37 * i + 11) % 250) + 1]
 
 CellChoices(n) ==
-  IF Focus = "c04" THEN { [k |-> "none"], [k |-> "str", s |-> StrA], [k |-> "ptr", t |-> 0] }
+  IF Focus = "c04" THEN { [k |-> "none"], [k |-> "str", s |-> StrA], [k |-> "ptr", t |-> 0], [k |-> "ptr", t |-> n] }
+                        \cup (IF n >= 8 THEN { [k |-> "ptr", t |-> 5] } ELSE {})
   ELSE { [k |-> "none"], [k |-> "str", s |-> StrA], [k |-> "str", s |-> StrB], [k |-> "cstr", s |-> StrA] }
        \cup { [k |-> "ptr", t |-> t] : t \in ({0, 4, n} \cap (0..n)) }
 
@@ -118,7 +121,7 @@ AccessEvents(s) ==
      \cup { Rec(p \o "write_bytes", a, 0, FALSE, b, 0, "") : p \in {"", "s_"}, a \in AA, b \in { <<>>, <<170>>, <<1, 2, 3, 4>>, <<9, 8, 7, 6, 5>> } }
      \cup UNION { { Rec(p \o "read_val", a, w, FALSE, <<>>, 0, ty) : p \in {"", "s_"}, a \in AA, ty \in Types(w) } : w \in {1, 2, 4} }
      \cup UNION { { Rec(p \o "write_val", a, w, FALSE, td[2], 0, td[1]) : p \in {"", "s_"}, a \in AA, td \in TypedDigits(w) } : w \in {1, 2, 4} }
-     \cup { Rec(p \o o, a, 0, FALSE, <<>>, 0, "") : p \in {"", "s_"}, o \in {"read_string", "read_pointer", "read_labels"}, a \in CA }
+     \cup { Rec(p \o o, a, 0, FALSE, <<>>, 0, "") : p \in {"", "s_"}, o \in {"read_string", "read_pointer", "read_labels", "read_c_string"}, a \in CA }
      \* annotation writes only on cell-aligned addresses (one annotation per 4-byte cell is the domain)
      \cup { Rec(p \o "write_string", a, 0, FALSE, StrB, 0, "") : p \in {"", "s_"}, a \in { x \in CA : x % 4 = 0 /\ ~HasKey(s.ptrs, x) } }
      \cup { Rec(p \o "write_pointer", a, 0, FALSE, <<>>, 4, "") : p \in {"", "s_"}, a \in { x \in CA : x % 4 = 0 /\ ~HasKey(s.text, x) } }
